@@ -19,17 +19,29 @@ impl<'a> Cx<'a> {
     fn cat(&mut self, e: &Entry, a: &DynMsg, b: &DynMsg) { let _ = writeln!(self.out, "pbecat {} {} {} {} {}", e.name, flag_name(), self.head(e), m_sexp(a), m_sexp(b)); }
 }
 
+/// The encoding of `m` that the decode requests are fed: the EMITTED encoder's bytes, except when
+/// some map of `m` holds two or more entries -- then the order of the entries in the emitted bytes
+/// follows the per-process hash seed, and to keep `gen` reproducible the bytes come from the
+/// dynamic message in its BTreeMap flavour (entries sorted by key) instead.
+fn bytes_of(e: &Entry, m: &DynMsg) -> Vec<u8> {
+    use pilota::prost::Message;
+    if !multi_entry(m) { return (e.ops.raw_enc)(m); }
+    let x = Sexp::parse_line(&m_sexp(m)).expect("printed value parses");
+    m_of_sexp(&m.schema, m.idx, true, &x[0]).expect("printed value reads back").encode_to_vec()
+}
+fn ld_of(e: &Entry, m: &DynMsg) -> Vec<u8> { let b = bytes_of(e, m); let mut l = vec![]; put_varint(b.len() as u64, &mut l); l.extend_from_slice(&b); l }
+
 fn value(r: &mut Rng, s: &Arc<Schema>, e: &Entry) -> DynMsg { let dp = 1 + r.below(4) as usize; gen_msg(r, s, e.idx, false, dp) }
 /// a random value whose emitted encoding stays below `cap` bytes
 fn small_value(r: &mut Rng, s: &Arc<Schema>, e: &Entry, cap: usize) -> (DynMsg, Vec<u8>) {
     for k in 0..12 {
         let dp = if k < 6 { 1 + r.below(3) as usize } else { 1 };
         let m = gen_msg(r, s, e.idx, false, dp);
-        let b = (e.ops.raw_enc)(&m);
+        let b = bytes_of(e, &m);
         if b.len() <= cap && (!b.is_empty() || k >= 6) { return (m, b); }
     }
     let m = DynMsg::new(s, e.idx, false);
-    let b = (e.ops.raw_enc)(&m);
+    let b = bytes_of(e, &m);
     (m, b)
 }
 
@@ -47,8 +59,8 @@ pub fn gen(stream: &str, tier: &str, seed: u64, out: &mut dyn Write) -> bool {
                 for k in 0..reps {
                     let m = if k == 0 { DynMsg::new(s, e.idx, false) } else { value(&mut r, s, e) };
                     cx.enc(e, &m);
-                    cx.dec(e, &(e.ops.raw_enc)(&m));
-                    if k % 3 == 0 { cx.dld(e, &(e.ops.raw_enc_ld)(&m)); }
+                    cx.dec(e, &bytes_of(e, &m));
+                    if k % 3 == 0 { cx.dld(e, &if multi_entry(&m) { ld_of(e, &m) } else { (e.ops.raw_enc_ld)(&m) }); }
                 }
             }
         }
@@ -61,7 +73,7 @@ pub fn gen(stream: &str, tier: &str, seed: u64, out: &mut dyn Write) -> bool {
                     let a = if k == 0 { DynMsg::new(s, e.idx, false) } else { value(&mut r, s, e) };
                     let b = if k == 1 { DynMsg::new(s, e.idx, false) } else { value(&mut r, s, e) };
                     cx.cat(e, &a, &b);
-                    cx.mrg(e, &a, &(e.ops.raw_enc)(&b));
+                    cx.mrg(e, &a, &bytes_of(e, &b));
                 }
             }
         }
@@ -76,13 +88,15 @@ pub fn gen(stream: &str, tier: &str, seed: u64, out: &mut dyn Write) -> bool {
                 match k % 5 { 0 => cx.dld(e, &b), 1 => { let s = tb.schema_of(e); let m = small_value(&mut r, s, e, 120).0; cx.mrg(e, &m, &b) } _ => cx.dec(e, &b) }
             }
             // mutations of valid emitted encodings
-            let nmsg = n(9, 180);
-            let start = r.below(tb.entries.len() as u64) as usize;
+            // quick: 9 types spread over the table; thorough: every type twice
+            let len = tb.entries.len();
+            let nmsg = n(9.min(len), 2 * len);
+            let start = r.below(len as u64) as usize;
+            let stride = (2..len).rev().find(|k| gcd(*k, len) == 1 && *k <= len / 2 + 1).unwrap_or(1);
             for k in 0..nmsg {
-                // walk the table with a stride coprime to most lengths so that quick runs spread over the files
-                let e = &tb.entries[(start + k * 7) % tb.entries.len()];
+                let e = &tb.entries[(start + k * stride) % len];
                 let s = tb.schema_of(e);
-                let (m, b) = small_value(&mut r, s, e, n(160, 400));
+                let (m, b) = small_value(&mut r, s, e, n(160, 120));
                 mutate(&mut cx, &mut r, e, s, &m, &b, thorough);
             }
         }
@@ -90,6 +104,8 @@ pub fn gen(stream: &str, tier: &str, seed: u64, out: &mut dyn Write) -> bool {
     }
     true
 }
+
+fn gcd(a: usize, b: usize) -> usize { if b == 0 { a } else { gcd(b, a % b) } }
 
 /// bytes that look like protobuf records (keys with small tags, plausible lengths)
 fn wireish(r: &mut Rng, len: usize) -> Vec<u8> {
